@@ -14,7 +14,7 @@ RULE = ("random histories (<=14 steps) of push_theme(inherit=T/F), pop_theme (in
         "Non-trivial: >=3 steps with >=1 non-inheriting push or exceptional exit; distinct by history.")
 ASSUMPTIONS = ["rich.default_styles.DEFAULT_STYLES is data (what the default theme defines)",
                "style names are drawn from [A-Za-z0-9_.-]+ (what a config file key can hold)"]
-REQUIRED = ["mon.console_style_by_name", "mon.context_reentered", "mon.lookup", "mon.pop_restores", "mon.base_pop", "mon.config_roundtrip", "mon.exception_exit", "mon.lookup_with_default", "mon.config_after_edit"]
+REQUIRED = ["mon.config_read_inheriting_defaults", "mon.default_styles_untouched", "mon.console_style_by_name", "mon.context_reentered", "mon.lookup", "mon.pop_restores", "mon.base_pop", "mon.config_roundtrip", "mon.exception_exit", "mon.lookup_with_default", "mon.config_after_edit"]
 MIN_NONTRIVIAL = {"quick": 2000, "thorough": 100000}
 
 NAMES = ["info", "warn", "danger", "repr.number", "rule.line", "bar.complete", "a", "b.c", "red", "bold",
@@ -337,6 +337,10 @@ def _config_roundtrip(ctx, rng, theme, names, expect, inherit, feat0, edits=None
     if "%" in text:
         feat.append("percent-in-value")
     via_path = text.isascii() and rng.random() < 0.3
+    # the reader's own `inherit` (default True: the defaults come along) rotates; what is read back is then the theme's
+    # styles over the defaults
+    import random as _random
+    read_inherit = _random.Random("ri/" + text[:40] + str(len(text))).random() < 0.4
     try:
         if via_path:
             # the documented way to load a theme: Theme.read(path)
@@ -346,12 +350,12 @@ def _config_roundtrip(ctx, rng, theme, names, expect, inherit, feat0, edits=None
             try:
                 with os.fdopen(fd, "w", encoding="utf-8") as f:
                     f.write(text)
-                back = Theme.read(path, inherit=False)
+                back = Theme.read(path, inherit=read_inherit)
             finally:
                 os.unlink(path)
             ctx.count("mon.config_read_from_path")
         else:
-            back = Theme.from_file(io.StringIO(text), inherit=False)
+            back = Theme.from_file(io.StringIO(text), inherit=read_inherit)
     except Exception as e:
         ctx.violation("config-does-not-read-back:%s:%s" % (type(e).__name__, "+".join(feat) or "plain"),
                       dict(wit, error=repr(e)))
@@ -359,6 +363,17 @@ def _config_roundtrip(ctx, rng, theme, names, expect, inherit, feat0, edits=None
         return None
     got = {k: G.view(v) for k, v in back.styles.items()}
     want = {k: G.view(v) for k, v in theme.styles.items()}
+    if read_inherit:
+        ctx.count("mon.config_read_inheriting_defaults")
+        feat.append("read-with-inherit")
+        want = {**theme_map({}, True), **want}
+    # reading a theme (or building one) never changes the library's default styles
+    ctx.count("mon.default_styles_untouched")
+    now = default_views()
+    if now != theme_map({}, True):
+        changed = sorted(k for k in set(now) | set(_DEFAULTS) if now.get(k) != _DEFAULTS.get(k))
+        ctx.violation("default-styles-changed-by-reading-a-theme", dict(wit, names=changed[:8]))
+        return None
     if got != want:
         missing = sorted(set(want) - set(got))
         extra = sorted(set(got) - set(want))
